@@ -33,6 +33,7 @@ type exchange struct {
 	hdr    http.Header // client's request headers at the time of the call
 	fg304  []string    // tags of 304s received by foreground calls
 	cancel int         // the caller cancels its context (1: after the return, 2: before the call)
+	noStore bool       // the request carries no-store: nothing of this exchange may be written back
 }
 
 // sentBody remembers the exact bytes sent for a body token.
@@ -551,7 +552,7 @@ func (o *Origin) RoundTrip(req *http.Request) (*http.Response, error) {
 		if tk, ok := w.servedX[x]; ok {
 			if late {
 				w.fuzzy[tk] = true
-			} else if a.CCP == 0 || !contains(a.Fl, "no-store") {
+			} else if !e.noStore && (a.CCP == 0 || !contains(a.Fl, "no-store")) {
 				w.apply304(tk, tag)
 			}
 		} else {
